@@ -26,24 +26,24 @@ Definition restrict (name : str) (h : hop) : option op :=
   | HLen | HIter | HAll _ => None
   end.
 
-Theorem C10_handle_is_restricted : forall E C norm inplace s name h o, restrict name h = Some o ->
-  handle_step E C norm inplace s name h = step E C norm inplace s o.
-Proof. intros E C norm inplace s name h o H. destruct h; inversion H; reflexivity. Qed.
-Theorem C10_iter_is_restricted : forall E C norm inplace s name,
-  handle_step E C norm inplace s name HIter = (s, OPoints (filter (fun p => str_eqb (p_meas p) name) (st_rows s))).
+Theorem C10_handle_is_restricted : forall E C norm s name h o, restrict name h = Some o ->
+  handle_step E C norm s name h = step E C norm s o.
+Proof. intros E C norm s name h o H. destruct h; inversion H; reflexivity. Qed.
+Theorem C10_iter_is_restricted : forall E C norm s name,
+  handle_step E C norm s name HIter = (s, OPoints (filter (fun p => str_eqb (p_meas p) name) (st_rows s))).
 Proof. reflexivity. Qed.
 Theorem C10_search_confined : forall E q name srt db p, name <> [] -> In p (spec_search E q (Some name) srt db) -> p_meas p = name.
 Proof. exact handle_search_confined. Qed.
-Theorem C10_remove_confined : forall E C norm inplace s q name, Inv s -> wf_query E q -> index_safe q -> name <> [] ->
-  filter (fun p => negb (str_eqb (p_meas p) name)) (st_rows (fst (handle_step E C norm inplace s name (HRemove q))))
+Theorem C10_remove_confined : forall E C norm s q name, Inv s -> wf_query E q -> index_safe q -> name <> [] ->
+  filter (fun p => negb (str_eqb (p_meas p) name)) (st_rows (fst (handle_step E C norm s name (HRemove q))))
   = filter (fun p => negb (str_eqb (p_meas p) name)) (st_rows s).
 Proof. exact handle_remove_confined. Qed.
 Theorem C10_update_confined : forall E C norm s q u name l n, name <> [] ->
   spec_update_rows C norm (hit E q (Some name)) u (st_rows s) = Some (l, n) ->
   forall k p, nth_error (st_rows s) k = Some p -> str_eqb (p_meas p) name = false -> nth_error l k = Some p.
 Proof. exact handle_update_confined. Qed.
-Theorem C10_insert_sets_name : forall E C norm inplace s ps name, Inv s -> wf_insert norm ps (Some name) -> name <> [] ->
-  let r := handle_step E C norm inplace s name (HInsert ps) in
+Theorem C10_insert_sets_name : forall E C norm s ps name, Inv s -> wf_insert norm ps (Some name) -> name <> [] ->
+  let r := handle_step E C norm s name (HInsert ps) in
   st_rows (fst r) = st_rows s ++ map (fun p => set_meas p name) (prefix_points ps).
 Proof. exact handle_insert_named. Qed.
 
